@@ -104,6 +104,16 @@ type DispCfg struct {
 	Size     int
 	HfpTTL   int // seconds; <=0 unset
 	HasStore bool
+	// StoreName: caches with the same store name share one store instance (default: the cache's own name)
+	StoreName string
+}
+
+// storeURL of a cache configuration
+func (c DispCfg) storeURL() string {
+	if c.StoreName != "" {
+		return "mem://" + c.StoreName
+	}
+	return "mem://" + c.Name
 }
 
 type World struct {
@@ -273,7 +283,7 @@ func (w *World) Configure(cfgs []DispCfg) {
 	w.dispCfgs = cfgs
 	for _, c := range cfgs {
 		if c.HasStore {
-			url := "mem://" + c.Name
+			url := c.storeURL()
 			if w.Stores[url] == nil {
 				w.Stores[url] = NewMemStore(w)
 				w.Stores[url].Disp = c.Name
@@ -309,6 +319,16 @@ func (w *World) EmitResident() {
 	}
 }
 
+// StoreOf the store of the named cache (nil: none)
+func (w *World) StoreOf(disp string) *MemStore {
+	for _, c := range w.dispCfgs {
+		if c.Name == disp && c.HasStore {
+			return w.Stores[c.storeURL()]
+		}
+	}
+	return nil
+}
+
 // Reapply applies the unchanged cache configuration again, as every configuration update does
 // (every second time with another hit-for-pass period: a cache that exists is kept as it is, period included)
 func (w *World) Reapply() {
@@ -338,7 +358,7 @@ func (w *World) cacheConfigs() []config.CacheConfig {
 			cc.HitForPass = strconv.Itoa(c.HfpTTL) + "s"
 		}
 		if c.HasStore {
-			cc.Store = "mem://" + c.Name
+			cc.Store = c.storeURL()
 		}
 		ccs = append(ccs, cc)
 	}
